@@ -9,6 +9,8 @@ open Cqos.Proto
 def divByName? : String → Option Div
   | "fair" => some fair
   | "rate" => some rate
+  | "lowfirst" => some lowfirst
+  | "quota" => some quota
   | _ => none
 
 def showRateErr : RateErr → String
